@@ -26,16 +26,22 @@ for s in seeds:
     row = {'property': meta['property'], 'summary': meta.get('summary', '')[:200], 'detected_by': {}, 'ran': checks, 'when': time.strftime('%F %T')}
     env = dict(os.environ, MCV_REPO=SCR)
     order = [meta['property']] + [c for c in checks if c != meta['property']]
-    for c in order:
-        if c not in checks:
-            continue
-        t0 = time.time()
+    order = [c for c in order if c in checks]
+
+    def one(c):
         q = subprocess.run(['./bin/check', c, '--tier', 'quick'], cwd=V, env=env, stdout=subprocess.PIPE, stderr=subprocess.STDOUT, text=True)
-        lines = [l for l in q.stdout.splitlines() if not l.startswith(('VIOLATION', 'KNOWN-FINDING', '[', 'BROKEN'))]
-        nv = q.stdout.count('VIOLATION property=')
-        nb = q.stdout.count('BROKEN-PRECONDITION')
+        return c, q.stdout
+    # the first check builds the exports of this tree state; the others then share the cache
+    outs = [one(order[0])] if order else []
+    from concurrent.futures import ThreadPoolExecutor
+    with ThreadPoolExecutor(max_workers=int(opt.get('jobs', '5'))) as ex:
+        outs += list(ex.map(one, order[1:]))
+    for c, out in outs:
+        lines = [l for l in out.splitlines() if not l.startswith(('VIOLATION', 'KNOWN-FINDING', '[', 'BROKEN'))]
+        nv = out.count('VIOLATION property=')
+        nb = out.count('BROKEN-PRECONDITION')
         if nv or nb:
-            row['detected_by'][c] = {'violations': nv, 'broken': nb, 'first': (lines[0][:300] if lines else ([l for l in q.stdout.splitlines() if l.startswith('BROKEN')] or [''])[0][:300])}
+            row['detected_by'][c] = {'violations': nv, 'broken': nb, 'first': (lines[0][:300] if lines else ([l for l in out.splitlines() if l.startswith('BROKEN')] or [''])[0][:300])}
     results[s] = row
     print(s, meta['property'], '->', {k: v['violations'] or ('broken:%d' % v['broken']) for k, v in row['detected_by'].items()} or 'MISSED')
     json.dump(results, open(resf, 'w'), indent=1)
